@@ -1,6 +1,6 @@
 From Coq Require Import ExtrOcamlBasic.
 From FV.Model Require Import Glue Hdr HdrOk.
 Extraction "hdr_model.ml" zadd zmul zopp zeqb zltb z_of_nat z_to_nat
-  c12_ok_v model_obs_v c12_ok_seq model_obs_seq geometry point_fns
+  c12_ok_v model_obs_v c12_ok_seq model_obs_seq c12_ok_corr model_obs_corr corrected_values geometry point_fns
   hist_equal value_at_rank hmin hmax mean_num merge export import record_all new
   new_windowed rotate w_record w_merge counts_list steps.
